@@ -44,15 +44,20 @@ def failOpt (optional : Bool) : Except Err (Option Node) :=
   if optional then .ok none else .error .resolution
 
 /-- one segment, by kind, as the property describes it -/
-def stepSpec (lenient : Bool) (k : SegKind) (opt : Bool) (cur : Option Node) : Except Err (Option Node) :=
+def stepSpec (lenient : Lat) (k : SegKind) (opt : Bool) (cur : Option Node) : Except Err (Option Node) :=
   match k with
   | .identity => .ok cur
   | .iterator =>
     match cur with
     | some (.map kvs) => .ok (some (.list (Node.values kvs)))   -- a map becomes the list of its values
     | some (.list xs) => .ok (some (.list xs))                   -- a list is left unchanged
-    | none | some .null => if opt then .ok (some (.list [])) else .error .resolution
-    | _ => .error .resolution
+    -- an OPTIONAL iterator on something it cannot iterate is left open by C12 (`Lat`): an error, "no value" or the empty list
+    | none | some .null =>
+      if opt then (match lenient.iterNull with | .err => .error .resolution | .none => .ok none | .empty => .ok (some (.list [])))
+      else .error .resolution
+    | _ =>
+      if opt then (match lenient.iterScalar with | .err => .error .resolution | .none => .ok none | .empty => .ok (some (.list [])))
+      else .error .resolution
   | .field name =>
     match cur with
     | some (.map kvs) =>
@@ -79,10 +84,10 @@ def stepSpec (lenient : Bool) (k : SegKind) (opt : Bool) (cur : Option Node) : E
     | none => failOpt opt
     -- C12 speaks of failing optional FIELD and INDEX segments ("no value") and of failing non-optional segments (an error); an
     -- optional slice on a value that cannot be sliced is left open: `lenient` says which of the two the implementation does
-    | _ => if lenient && opt then .ok none else .error .resolution
+    | _ => if lenient.slice && opt then .ok none else .error .resolution
 
 /-- resolving a selector = resolving its segments one after the other -/
-def resolveSpec (lenient : Bool) (segs : List Seg) (cur : Option Node) : Except Err (Option Node) :=
+def resolveSpec (lenient : Lat) (segs : List Seg) (cur : Option Node) : Except Err (Option Node) :=
   segs.foldlM (fun c s => stepSpec lenient (classify s) s.optional c) cur
 
 end Ucan.Selector
